@@ -471,6 +471,13 @@ def cl_residual_map(ift, sc, make_samples, W, n_per_call, extract):
 # =====================================================================================
 # nifty.re builder and scripted noise
 # =====================================================================================
+def jax_budget_guard(ck, forced=False, need_s=30.0):
+    """JAX cases are compile-dominated (seconds, much more on a loaded machine): do not start one
+    when little budget is left — the runner only checks the deadline between cases."""
+    if not forced and ck.time_left() < need_s:
+        raise SkipCase(f"less than {need_s:.0f} s of budget left: JAX case not started")
+
+
 def get_jax(ck):
     st = ck.state
     if "jft" not in st:
